@@ -83,3 +83,27 @@ Theorem C01_partial_dfs_exhaustive :
                  nth_error (choices ej) q = Some c.
 Proof. exact dfs_exhaustive. Qed.
 Print Assumptions C01_partial_dfs_exhaustive.
+
+Require Import LV.PathApi LV.Prog LV.Objects LV.Exec LV.Check LV.ExecFacts LV.ExecFacts2.
+
+(* the same on the concrete execution model *)
+(* the concrete iteration of the model L satisfies the second contract of dfs_exhaustive (one Active thread per entry, appended entries are fresh) *)
+Theorem C01_partial_L_iter_ok2 :
+  forall (fuel : nat) (p : prog),
+       PathExhaust.iter_ok2 (fun pa : path => e_path (fst (iteration fuel p pa))).
+Proof. exact L_iter_ok2. Qed.
+Print Assumptions C01_partial_L_iter_ok2.
+
+(* for every program: the exploration of L from the initial path stops by itself and every alternative registered by any of its iterations (Pending thread, further load candidate, spurious branch) is decided by some iteration with the same decisions before it *)
+Theorem C01_partial_L_exhaustive_complete :
+  forall (fuel : nat) (p : prog) (c : config) (k : nat) (ek : path) (q : nat) (ch : choice),
+       let it := fun pa : path => e_path (fst (iteration fuel p pa)) in
+       let n := S (BASE ^ cap (initial_path c)) in
+       nth_error (explore it n (initial_path c)) k = Some ek ->
+       PathExhaust.registered ek q ch ->
+       exists (j : nat) (ej : path),
+         nth_error (explore it n (initial_path c)) j = Some ej /\
+         firstn q (choices ej) = firstn q (choices ek) /\ nth_error (choices ej) q = Some ch.
+Proof. exact L_exhaustive_complete. Qed.
+Print Assumptions C01_partial_L_exhaustive_complete.
+
